@@ -1351,7 +1351,11 @@ async fn run_close_case(lines: &[String], ex: &mut Exec) -> Vec<String> {
                     .collect();
                 {
                     let pr = &pends;
+                    let t0 = std::time::Instant::now();
                     notify.wait_until(|| must.iter().all(|&j| pr[j].done()), CLOSE_WATCHDOG).await;
+                    if std::env::var("C16_TIMING").is_ok() {
+                        eprintln!("close wait {:.1} ms", t0.elapsed().as_secs_f64() * 1e3);
+                    }
                 }
                 sleep(Duration::from_millis(3)).await;
                 let mut closed = vec![];
@@ -1543,14 +1547,16 @@ fn gen_close(rng: &mut Rng, idx: usize) -> Case {
         }
     }
     let lim = |side: usize, kind: &str, ki: usize| count(side, kind) + if slack[side][ki] { 8 } else { 0 };
-    let mut lines = vec![format!(
-        "C conn cbi={} cuni={} sbi={} suni={} srw={}",
-        lim(0, "bi", 0),
-        lim(0, "uni", 1),
-        lim(1, "bi", 0),
-        lim(1, "uni", 1),
-        *rng.pick(&[512u64, 2048, 8192])
-    )];
+    let mut lines = vec![String::new()];
+    let conn_line = |srw: u64| {
+        format!(
+            "C conn cbi={} cuni={} sbi={} suni={} srw={srw}",
+            lim(0, "bi", 0),
+            lim(0, "uni", 1),
+            lim(1, "bi", 0),
+            lim(1, "uni", 1)
+        )
+    };
     let sd = ["c", "s"];
     for (k, side, kind) in &streams {
         lines.push(format!("C stream {k} {} {kind}", sd[*side]));
@@ -1638,6 +1644,25 @@ fn gen_close(rng: &mut Rng, idx: usize) -> Case {
             _ => pend.push((side, kind.into(), None)),
         }
     }
+    // Blocked writers leave (stream window) bytes each in the send path. quinn-proto subjects the packet that
+    // carries CONNECTION_CLOSE to congestion control while stream data is pending and no longer processes ACKs once
+    // closed: with more than the initial congestion window (~12 kB) outstanding the close frame is never sent and
+    // the peer only notices by idle timeout / stateless reset (third-party behaviour, see notes/C16.md). Keep the
+    // outstanding data of a side well below that.
+    let writers = |side: usize| pend.iter().filter(|p| p.0 == side && p.1 == "write").count();
+    let srw = if writers(0).max(writers(1)) <= 1 { *rng.pick(&[512u64, 2048, 8192]) } else { *rng.pick(&[512u64, 2048]) };
+    if writers(0).max(writers(1)) > 3 {
+        let mut seen = [0usize; 2];
+        pend.retain(|p| {
+            if p.1 == "write" {
+                seen[p.0] += 1;
+                seen[p.0] <= 3
+            } else {
+                true
+            }
+        });
+    }
+    lines[0] = conn_line(srw);
     for (side, kind, sid) in &pend {
         match sid {
             Some(k) => lines.push(format!("C pend {} {kind} {k}", sd[*side])),
